@@ -111,6 +111,26 @@ def make_call(cls, k):
         a = Meter ** k
         f = {Meter: k, Second: 1}
         return lambda: a * Second, lambda: len([u for u in Unit._known.values() if getattr(u, "factors", None) == f and u.prefix is IdentityPrefix])
+    if cls == "PrefixFloat":
+        # a prefix with a non-integral exponent (what products of SI and IEC prefixes are), constructed directly and as such a product
+        e = k + 0.5
+        return [lambda: Prefix(3, e), lambda: Prefix(3, e), lambda: Prefix(3, e)], lambda: len([p for p in Prefix._known.values() if getattr(p, "base", None) == 3 and getattr(p, "exponent", None) == e])
+    if cls == "PrefixMixed":
+        from measured.iec import Kibi
+        a = Prefix(10, 1000 + k)
+        return (lambda: Kibi * a), lambda: 1          # (a * Kibi is another prefix: the product keeps its left operand's base)
+    if cls in ("DimChain", "UnitChain"):
+        # a chained expression whose intermediate product is new as well: the second factor is multiplied onto an object another thread may
+        # have registered a moment ago
+        from measured import Length, Time, Mass
+        from measured.si import Kilogram
+        if cls == "DimChain":
+            n_ = 100 + k
+            exps = None
+            return (lambda: Length ** n_ * Time ** n_ * Mass), lambda: len([d for d in Dimension._known.values() if getattr(d, "exponents", None) == (Length ** n_ * Time ** n_ * Mass).exponents])
+        n_ = 100 + k
+        f = {Meter: n_, Second: n_, Kilogram: 1}
+        return (lambda: Meter ** n_ * Second ** n_ * Kilogram), lambda: len([u for u in Unit._known.values() if getattr(u, "factors", None) == f and u.prefix is IdentityPrefix])
     if cls in ("UnitMulOrders", "UnitDivOrders"):
         # different expressions denoting one new unit, evaluated at the same time: a*b | b*a, a/b | b**-1 * a
         base1 = Dimension._by_name["length"].unit(f"vfo{k}a", f"vfo{k}a"); base2 = Dimension._by_name["time"].unit(f"vfo{k}b", f"vfo{k}b")
